@@ -73,6 +73,7 @@ def import_sut():
     import queue  # noqa: F401
     import tempfile  # noqa: F401
     from . import seams
+    seams.install_fork_hook()
     with seams.sim_locks():
         _import_bycycle()
     import bycycle
